@@ -458,14 +458,24 @@ func corpus(cfgs []ChainCfg) []History {
 			{Kind: "rewrite", From: 12, Toggle: []int{13}},
 			{Kind: "call", Queued: true, Height: 13, Batch: 2, MaxBatch: 2, Resps: []Resp{H(13), B("alt_variant", 13), B("alt_variant", 12), H(12)}, Verdict: "ok"},
 		}},
-		// root cause 1 (known finding F-C05-2): a rewrite leaves a cached /
-		// stored filter behind that no longer matches the committed header
+		// finding F-C05-2 (repaired): a rewrite leaves a cached / stored filter
+		// behind that no longer matches the committed header. It must not be
+		// served (from the cache, then from the database); the next answered
+		// query replaces it in both (healing)
 		{ID: 10, Chain: a, CacheCap: 1 << 20, Persist: true, Ops: []Op{
 			call(5, 0, 0, "ok", H(5)),
 			{Kind: "rewrite", From: 5, Toggle: []int{5}},
 			call(5, 0, 0, "err"),
 			{Kind: "dropcache"},
 			call(5, 0, 0, "err"),
+			call(5, 0, 0, "ok", B("alt_variant", 5), H(5)),
+			call(5, 0, 0, "err"),
+			{Kind: "dropcache"},
+			call(5, 0, 0, "err"),
+			// rewritten back: the filter stored now is the stale one
+			{Kind: "rewrite", From: 4, Toggle: []int{5}},
+			call(5, 1, 2, "ok", H(6)),
+			call(5, 1, 2, "ok", H(5)),
 		}},
 		// retry of the same range after the filter headers inside it were
 		// rolled back and re-committed: filters matching the OLD headers must
@@ -1040,7 +1050,10 @@ func runHistory(h *History, work string) {
 	defer os.RemoveAll(dir)
 	rdb := &racingDB{}
 	env := q.Open(dir, q.EnvConfig{FilterCacheSize: h.CacheCap, Persist: h.Persist, Ticker: 15 * time.Millisecond,
-		WrapDB: func(db walletdb.DB) walletdb.DB { rdb.DB = db; return rdb }})
+		WrapDB: func(db walletdb.DB) walletdb.DB { rdb.DB = db; return rdb },
+		WrapFilterDB: func(f filterdb.FilterDatabase) filterdb.FilterDatabase {
+			return &markingFDB{FilterDatabase: f, rdb: rdb}
+		}})
 	defer env.Close()
 	// the overlapping writers commit one plain read-write transaction per
 	// group (no bbolt batching delay): a handle that hides BatchDB
